@@ -556,6 +556,9 @@ func runC13(c *core.Ctx) {
 	// closing a channel closes its socket
 	c.Rule("R7", "the transport wrappers' Close reaches the connection on every path (shared with C17-R6)", 1)
 	importObligations(c, runC17, "R7", func(o *core.Obligation) bool { return o.Rule == "R6" })
+	// CloseAll closes the channels one after the other: a Close that can block on itself stalls the rest
+	c.Rule("R8", "Channel.Close elects its one effective call by a CAS; every other call returns at once (shared with C05-R1/R3)", 2)
+	importObligations(c, runC05, "R8", func(o *core.Obligation) bool { return o.Rule == "R1" || o.Rule == "R3" })
 
 	runC13Listener(c, e, br, serverClosed)
 }
